@@ -1016,6 +1016,9 @@ func bridgeOnce(rc *RunCtx, wl, fl *Stream, primary bool) {
 			}
 			r.SetThisValue("ns", ns2)
 			ev := &bEval{w: w, perFn: map[string]int{}, cells: map[string]int64{}, remap: remap}
+			for _, c := range w.log {
+				ev.perFn[c.fn]++ // the functions that stay were called before: their k-th result depends on k
+			}
 			_, st := ev.eval(root)
 			w.log, w.n = nil, 0
 			func() {
